@@ -155,8 +155,8 @@ impl Prop for C09 {
                 .cap(tier.pick(150, 1500))
                 .hang(None)
                 .floor(tier.pick(300, 20_000)),
-            Lane::new("chaos", tier.pick(640, 20_000))
-                .cap(tier.pick(150, 1200))
+            Lane::new("chaos", tier.pick(640, 12_000))
+                .cap(tier.pick(150, 1500))
                 .hang(None)
                 .floor(tier.pick(50, 3_000)),
             Lane::new("panic", tier.pick(96, 1_500))
